@@ -9,27 +9,29 @@
    is fuel for context processing.  [B : backend] is json-gold/merkletree code below
    the modelled level (expansion result, ToRDF+URDNA2015, entries+tree, compaction):
    universally quantified, nothing is assumed about it except where written.
-   [occurs loader cf under c ap nest sw pre v p cn k s]: in value [v] a member with
-   key [k] sits at path [p]; [cn] is the active context in which json-gold expands
-   that key (after property-scoped, embedded and type-scoped contexts, type-scoped
-   ones reverted in nested nodes); [under = true] also counts positions below
-   undefined members; [s] = the position is inside the VALUE of an @list / @set /
-   @default keyword member.  [key_defined cn k]: k is a keyword / alias, or its
-   expansion contains ':' (json-gold's test, api_expand.go:361).
+   [occurs loader cf under c ap nest sw v p cn k s]: in value [v] (expanded under active
+   context [c] and active property [ap]) a member with key [k] sits at path [p]; [cn]
+   is the active context in which json-gold expands that key (after property-scoped,
+   embedded and type-scoped contexts, type-scoped ones reverted in nested nodes);
+   [under = true] also counts positions below undefined members; [s] = the position
+   is inside the VALUE of an @list / @set / @default keyword member.  For a whole
+   document: c = empty_ctx, ap = "", nest = sw = false.
+   [key_defined cn k]: k is a keyword / alias, or its expansion contains ':'
+   (json-gold's test, api_expand.go:361).  [key_absolute cn k]: keyword / alias, or the
+   expansion is an absolute IRI and no blank node identifier (the property text).
 
-   FULL STATEMENT (property text), NOT provable for the code as it is:
-     forall d r, merklize_doc loader cf B true d = Ok r ->
-       forall p cn k s, occurs loader cf true empty_ctx "" false false [] d p cn k s ->
-         key_absolute cn k = true.
-   Two reasons, both confirmed on /repo (see C15_safe_refuted, C15_weaker_than_absolute
-   and the harness classes c15-set-swallows-invalid-property,
-   c15-nonabsolute-property-dropped):
-   (1) json-gold ignores the error of the nested Expand under @set/@list/@default
-       (api_expand.go:563,570,649), so an undefined member inside an @set value is
-       accepted in safe mode;  (2) json-gold's test is "contains ':'", not "absolute
-       IRI": keys like "_:b" or ":x" pass and are dropped later by ToRDF.
-   What IS proved is the statement for every position with s = false and json-gold's
-   notion of defined: C15_safe_partial. *)
+   The UNCONDITIONAL statement of the property text,
+     merklize_doc loader cf B true d = Ok r ->
+       forall p cn k s, occurs loader cf true empty_ctx "" false false d p cn k s ->
+         key_absolute cn k = true,
+   is FALSE for the code as it is, for two reasons confirmed on /repo (known findings
+   D26, D27; witnesses C15_safe_refuted, C15_weaker_than_absolute):
+   (D26) json-gold ignores the error of the nested Expand under @set/@list/@default
+         (api_expand.go:563,570,649): an undefined member inside an @set value is
+         accepted in safe mode;
+   (D27) json-gold's test is "contains ':'", not "absolute IRI": keys like "_:b" or
+         ":x" pass and are dropped later by ToRDF.
+   C15_safe states it under the hypothesis that excludes exactly these two shapes. *)
 From Coq Require Import List String Bool NArith.
 From GSP Require Import Base.Prelude JsonLD.Safe JsonLD.SafeTheory.
 Import ListNotations.
@@ -43,7 +45,7 @@ Theorem C15_safe_partial :
          (d : json) (r : R),
   merklize_doc loader cf B true d = Ok r ->
   forall (p : path) (cn : ctx) (k : string),
-  occurs loader cf true empty_ctx "" false false [] d p cn k false ->
+  occurs loader cf true empty_ctx "" false false d p cn k false ->
   key_defined cn k = true.
 Proof. exact safe_ok_all_defined. Qed.
 Print Assumptions C15_safe_partial.
@@ -57,7 +59,7 @@ Theorem C15_safe :
          (d : json) (r : R),
   merklize_doc loader cf B true d = Ok r ->
   forall (p : path) (cn : ctx) (k : string),
-  occurs loader cf true empty_ctx "" false false [] d p cn k false ->
+  occurs loader cf true empty_ctx "" false false d p cn k false ->
   colon_not_absolute cn k = false ->
   key_absolute cn k = true.
 Proof. exact safe_ok_all_absolute. Qed.
@@ -67,7 +69,7 @@ Print Assumptions C15_safe.
 Theorem C15_safe_rejects :
   forall (loader : string -> option json) (cf : nat) (E DS R C : Type) (B : backend E DS R C)
          (d : json) (p : path) (cn : ctx) (k : string),
-  occurs loader cf true empty_ctx "" false false [] d p cn k false ->
+  occurs loader cf true empty_ctx "" false false d p cn k false ->
   key_defined cn k = false ->
   forall r : R, merklize_doc loader cf B true d <> Ok r.
 Proof. exact safe_rejects_undefined. Qed.
@@ -78,7 +80,7 @@ Print Assumptions C15_safe_rejects.
 Theorem C15_safe_rejects_err :
   forall (loader : string -> option json) (cf : nat) (E DS R C : Type) (B : backend E DS R C)
          (d : json) (p : path) (cn : ctx) (k : string) (os : list occ) (r' : R),
-  occurs loader cf true empty_ctx "" false false [] d p cn k false ->
+  occurs loader cf true empty_ctx "" false false d p cn k false ->
   key_defined cn k = false ->
   undefined_occ loader cf d = Ok os ->
   merklize_doc loader cf B false d = Ok r' ->
@@ -92,7 +94,7 @@ Theorem C15_modes_agree_when_defined :
   forall (loader : string -> option json) (cf : nat) (E DS R C : Type) (B : backend E DS R C)
          (d : json) (os : list occ),
   undefined_occ loader cf d = Ok os ->
-  (forall p cn k s, occurs loader cf false empty_ctx "" false false [] d p cn k s ->
+  (forall p cn k s, occurs loader cf false empty_ctx "" false false d p cn k s ->
                     key_defined cn k = true) ->
   merklize_doc loader cf B true d = merklize_doc loader cf B false d.
 Proof. exact modes_agree_when_defined. Qed.
@@ -103,16 +105,16 @@ Print Assumptions C15_modes_agree_when_defined.
 Theorem C15_scan_complete :
   forall (loader : string -> option json) (cf : nat) (d : json) (p : path) (cn : ctx) (k : string)
          (s : bool) (os : list occ),
-  occurs loader cf false empty_ctx "" false false [] d p cn k s -> key_defined cn k = false ->
+  occurs loader cf false empty_ctx "" false false d p cn k s -> key_defined cn k = false ->
   undefined_occ loader cf d = Ok os -> In (p, s) os.
-Proof. exact (fun loader cf d p cn k s os H Hd => walk_complete loader cf _ _ _ _ _ _ _ _ _ _ H Hd os). Qed.
+Proof. exact (fun loader cf d p cn k s os H Hd => walk_complete loader cf _ _ _ _ _ _ _ _ _ H Hd os). Qed.
 Print Assumptions C15_scan_complete.
 
 Theorem C15_scan_sound :
   forall (loader : string -> option json) (cf : nat) (d : json) (os : list occ) (p : path) (s : bool),
   undefined_occ loader cf d = Ok os -> In (p, s) os ->
-  exists cn k, occurs loader cf false empty_ctx "" false false [] d p cn k s /\ key_defined cn k = false.
-Proof. exact (fun loader cf d os p s => walk_sound loader cf _ _ _ _ _ d os p s). Qed.
+  exists cn k, occurs loader cf false empty_ctx "" false false d p cn k s /\ key_defined cn k = false.
+Proof. exact (fun loader cf d os p s => walk_sound loader cf _ _ _ _ d os p s). Qed.
 Print Assumptions C15_scan_sound.
 
 (* REFUTED full statement, reason (1): a document with an undefined member that safe
@@ -149,6 +151,28 @@ Theorem C15_unsafe :
   forall d, merklize_doc loader cf B false d = merklize_doc loader cf B false (strip_undefined loader cf d).
 Proof. exact unsafe_is_stripped. Qed.
 Print Assumptions C15_unsafe.
+
+(* ... where the stripped document is, independently of any context, the document
+   with exactly the reported members deleted ([remove_members]: a purely structural
+   deletion by path; [wf]: object keys are unique, as in any Go map); by
+   C15_scan_sound / C15_scan_complete the reported members are exactly the undefined
+   members expansion reaches *)
+Theorem C15_unsafe_removal :
+  forall (loader : string -> option json) (cf : nat) (E DS R C : Type) (B : backend E DS R C),
+  (forall d, b_expand B d = b_expand B (strip_undefined loader cf d)) ->
+  forall (d : json) (os : list occ),
+  wf d -> undefined_occ loader cf d = Ok os ->
+  merklize_doc loader cf B false d =
+  merklize_doc loader cf B false (remove_members (map fst os) d).
+Proof. exact unsafe_is_removal. Qed.
+Print Assumptions C15_unsafe_removal.
+
+Theorem C15_strip_is_removal :
+  forall (loader : string -> option json) (cf : nat) (d : json) (os : list occ),
+  wf d -> undefined_occ loader cf d = Ok os ->
+  strip_undefined loader cf d = remove_members (map fst os) d.
+Proof. exact strip_is_removal. Qed.
+Print Assumptions C15_strip_is_removal.
 
 (* the default options are safe, at every entry point that merklizes *)
 Theorem C15_default :
